@@ -453,7 +453,12 @@ def merge(m1, m2, **kargs):
                 v2 = vec([m2[mem(l, v1.size, seg, disp)] for l in loc.base.l])
                 v2 = v2.simplify(**kargs)
             else:
-                v2 = m2[mem(loc, v1.size)]
+                # join what the location holds at the end of each map, at the wider of the two
+                # items: a recorded item value may have been partly overwritten by a later item
+                o2 = m2.generation()[loc]
+                sz = max(v1.size, o2.size) if o2 is not None else v1.size
+                v1 = m1[mem(loc, sz)]
+                v2 = m2[mem(loc, sz)]
         else:
             if loc._is_reg and (loc.etype & regtype.FLAGS):
                 v2 = top(loc.size)
@@ -475,6 +480,7 @@ def merge(m1, m2, **kargs):
                 v1 = v1.simplify(**kargs)
             else:
                 v1 = m1[mem(loc, v2.size)]
+                v2 = m2[mem(loc, v2.size)]
         else:
             if loc._is_reg and (loc.etype & regtype.FLAGS):
                 v1 = top(loc.size)
